@@ -66,7 +66,7 @@ Definition pendadd (s : state) : nat :=
 (* ---- the workers' program points ----------------------------------------------- *)
 Definition w_holds_o (p : wpc) : bool :=
   match p with
-  | WHw1 (SWr _) | WHwF _ | WHwEP _ | WHwEW _ | WHwL1 _ | WHwL2 _ | WHwLP _ | WHwLW _ | WHwRel
+  | WHw1 (SWr _) | WHwC _ | WHwF _ | WHwEP _ | WHwEW _ | WHwL1 _ | WHwL2 _ | WHwLP _ | WHwLW _ | WHwRel
   | WWs3 _ | WCdRel | WWs4 _ | WWs5 | WWsF _ | WWs6 | WWsP | WWsRel
   | WSc1 | WScF | WScRel | WScX => true
   | _ => false
@@ -87,7 +87,7 @@ Definition w_holds_r (p : wpc) : bool :=
 Definition w_main (p : wpc) : bool :=
   match p with
   | WSvc | WSvc2 | WApp | WWs1 _ | WWs2 _
-  | WHw1 _ | WHwA | WHwF _ | WHwEP _ | WHwEW _ | WHwEPk _ _ | WHwEN _
+  | WHw1 _ | WHwA | WHwC _ | WHwF _ | WHwEP _ | WHwEW _ | WHwEPk _ _ | WHwEN _
   | WHwL1 _ | WHwL2 _ | WHwLP _ | WHwLW _ | WHwLPk _ | WHwLN _ | WHwRel
   | WWs3 _ | WWs4 _ | WWs5 | WWsF _ | WWs6 | WWsP | WWsRel | WCdRel
   | WCl1 | WCl2 | WCl3 | WK1 | WK3 | WK4 => true
@@ -107,9 +107,9 @@ Definition w_exc (p : wpc) : bool :=
 Definition w_above (p : wpc) : bool :=
   match p with WHwLP _ | WHwLW _ => true | _ => false end.
 Definition w_loopc (p : wpc) : bool :=
-  match p with WHwL2 _ | WHwLP _ | WHwLW _ => true | _ => false end.
+  match p with WHwF _ | WHwEP _ | WHwEW _ | WHwL2 _ | WHwLP _ | WHwLW _ => true | _ => false end.
 Definition parked_conn (p : wpc) : bool :=
-  match p with WHwLPk _ | WHwEPk _ true => true | _ => false end.
+  match p with WHwLPk _ | WHwEPk _ _ => true | _ => false end.
 
 Definition count_busy (l : list wpc) : nat := length (filter w_busy l).
 
@@ -154,8 +154,9 @@ Definition winv_b (c : cfg) (s : state) (j : nat) (p : wpc) : bool :=
   imp (w_loopc p) (conn s) &&
   imp (match p with WHwEW _ => true | _ => false end) (closed s || pulled s || cov_wc (io s)) &&
   imp (match p with WHwLW _ => true | _ => false end) (closed s || pulled s || cov_tot (io s)) &&
-  imp (match p with WHwLPk _ => true | _ => false end) ((hw c <=? total s) || io_will_notify (io s) || io_close_notify (io s) (wc s)) &&
+  imp (match p with WHwLPk _ => true | _ => false end) ((hw c <? total s) || io_will_notify (io s) || io_close_notify (io s) (wc s)) &&
   imp (parked_conn p) (conn s || match io s with IoHCd _ => true | _ => false end) &&
+  negb (parked_after_close p) &&
   (Bool.eqb (w_idle p) (existsb (Nat.eqb j) (qwait s))).
 
 Fixpoint forallb_i {A} (f : nat -> A -> bool) (i : nat) (l : list A) : bool :=
